@@ -467,12 +467,20 @@ def import_in_function_cases(rng, n):
 DT_LIB = ("export class Box {\n\tv: int\n\tconstructor(self, v: int) {\n\t\tself.v = v\n\t}\n\tfn peek(self) -> int {\n\t\treturn self.v\n\t}\n}\n"
           "export n: int = 5\nexport s: str = \"x\"\nexport l: [int...] = [1, 2]\nexport f: fn(int) -> int = fn(a: int) -> int {\n\treturn a + 1\n}\n"
           "export shared: Box = Box(100)\nexport maybe: Box? = Box(7)\nexport boxes: [Box...] = [Box(1), Box(2)]\n"
-          "export mk: fn() -> Box = fn() -> Box {\n\treturn Box(3)\n}\nexport const kept: Box = Box(9)\n")
+          "export mk: fn() -> Box = fn() -> Box {\n\treturn Box(3)\n}\nexport const kept: Box = Box(9)\n"
+          # round 7 (seed C11-r7-1): members whose DECLARED type is a type alias - private alias of a native type, private alias
+          # of a structural type, exported alias, alias over an alias - are exported like any other
+          "type Id int\ntype History [int...]\nexport type Label str\ntype Ids [Id...]\n"
+          "export next_id: Id = 41\nexport log: History = [41, 42]\nexport title: Label = \"shapes\"\nexport ids: Ids = [7, 8]\n"
+          "export bump: fn() -> Id = fn() -> Id {\n\treturn 43\n}\n")
 # (member, kind, declared type, expression showing a value X of that type, expected line)
 DT_MEMBERS = [("n", "int", "int", "X + 1", "6"), ("s", "str", "str", 'X + "!"', "x!"), ("l", "list", "[int...]", "X[1]", "2"),
               ("f", "function", "fn(int) -> int", "X(1)", "2"), ("shared", "instance", "Box", "X.v + X.peek()", "200"),
               ("maybe", "optional-instance", "Box?", "(get X).v", "7"), ("boxes", "list-of-instances", "[Box...]", "(X[1]).v", "2"),
-              ("mk", "function-returning-instance", "fn() -> Box", "(X()).v", "3"), ("kept", "const-instance", "Box", "X.peek()", "9")]
+              ("mk", "function-returning-instance", "fn() -> Box", "(X()).v", "3"), ("kept", "const-instance", "Box", "X.peek()", "9"),
+              ("next_id", "private-alias-of-int", "int", "X + 1", "42"), ("log", "private-alias-of-list", "[int...]", "X[1]", "42"),
+              ("title", "exported-alias", "str", 'X + "!"', "shapes!"), ("ids", "private-alias-of-list-of-alias", "[int...]", "X[0]", "7"),
+              ("bump", "function-returning-alias", "fn() -> int", "X() + 1", "44")]
 DT_NEGATIVE = [
     ("call-imported-instance", "import shared from lib\nprint \"MARK\"\ny = shared(5)\n"),
     ("call-imported-instance-through-module", "import lib\nprint \"MARK\"\ny = lib.shared(5)\n"),
